@@ -149,10 +149,18 @@ PointProblems(ev) ==
 
 ---------------------------------------------------------------------------
 (* C05: the verdict *)
+\* the tableau path maps its answer back to the model by name: a model variable named like one of its
+\* own columns (slack $sl_k, surplus $su_k, artificial $a_k, the halves $px / $mx of a free variable x)
+\* cannot be told from them, and the conversion to standard form refuses such a model
+ReservedNames(ev) == UNION {{"$sl_" \o ToString(k), "$su_" \o ToString(k), "$a_" \o ToString(k)} : k \in 0..12}
+                     \cup UNION {{"$p" \o ev.vars[i].name, "$m" \o ev.vars[i].name} : i \in {j \in 1..NV(ev) : ev.vars[j].kind = "real"}}
+\* ... and two model variables named like the two halves of one split ($px and $mx) would be merged
+Names(ev) == {ev.vars[i].name : i \in 1..NV(ev)}
+SplitPair(ev) == \E r \in Names(ev) \cup {"x", "y", "z"} : ("$p" \o r) \in Names(ev) /\ ("$m" \o r) \in Names(ev)
 Accepts(ev) == \* does this entry point accept the model at all?
    CASE ev.entry \in {"milp", "auto"} -> TRUE
      [] ev.entry = "real_microlp" -> ev.sense # "sat" /\ \A i \in 1..NV(ev) : ev.vars[i].kind \in {"real", "nnreal"}
-     [] ev.entry = "simplex" -> ev.sense # "sat" /\ \A i \in 1..NV(ev) : ev.vars[i].kind \in {"real", "nnreal"}
+     [] ev.entry = "simplex" -> ev.sense # "sat" /\ \A i \in 1..NV(ev) : ev.vars[i].kind \in {"real", "nnreal"} /\ ev.vars[i].name \notin ReservedNames(ev) /\ ~SplitPair(ev)
      [] ev.entry \in {"clarabel", "text_clarabel"} -> \A i \in 1..NV(ev) : ev.vars[i].kind \in {"real", "nnreal"}
 SimplexBased(ev) == ev.entry \notin {"clarabel", "text_clarabel"}
 \* for a satisfy model only feasibility is judged
@@ -289,6 +297,7 @@ Check(ev) ==
         PrintT(<<"REJECT", "C05", ev.id, "no verdict: the call did not return within the watchdog limit", "">>)
    ELSE IF ~Accepts(ev) THEN
         (IF ev.out = "solution" THEN PrintT(<<"REJECT", "C05", ev.id, "solution from an entry point that does not accept the model", "">>)
+                                     /\ (Has("C04") => Emit("C04", ev, PointProblems(ev)))
          ELSE PrintT(<<"STAT", ev.id, "notaccepted", "">>))
    ELSE /\ (Has("C04") /\ ev.out = "solution" => Emit("C04", ev, PointProblems(ev)))
         /\ (Has("C05") => Emit("C05", ev, VerdictProblems(ev)))
